@@ -8,6 +8,7 @@ import (
 	authtypes "github.com/cosmos/cosmos-sdk/x/auth/types"
 
 	jtypes "github.com/jackalLabs/canine-chain/v4/types"
+	mkeeper "github.com/jackalLabs/canine-chain/v4/x/jklmint/keeper"
 	stypes "github.com/jackalLabs/canine-chain/v4/x/storage/types"
 )
 
@@ -20,6 +21,8 @@ var lgDenoms = []string{"ujkl", "uusd"}
 var lgClasses = []string{"users", "pol", "gauges", "stor", "collm", "rns", "mint", "other"}
 
 type lgSnap struct {
+	mintTo [3]*big.Int // ujkl held by the three recipients of the emission: stakers (fee collector + distribution), dev grants, stipend
+	ratios [3]int64    // their configured percentages when the snapshot was taken
 	bal    map[string]map[string]*big.Int
 	bids   map[string]*big.Int
 	coll   *big.Int
@@ -106,6 +109,17 @@ func (f *chainFam) lgTake() *lgSnap {
 	for _, c := range f.c.App.StorageKeeper.GetAllCollateral(ctx) {
 		s.coll.Add(s.coll, big.NewInt(c.Amount))
 	}
+	mp := f.c.App.MintKeeper.GetParams(ctx)
+	s.ratios = [3]int64{mp.StakerRatio, mp.DevGrantsRatio, mp.StorageProviderRatio}
+	bal := func(a sdk.AccAddress) *big.Int { return f.c.App.BankKeeper.GetBalance(ctx, a, "ujkl").Amount.BigInt() }
+	s.mintTo[0] = new(big.Int).Add(bal(authtypes.NewModuleAddress("fee_collector")), bal(authtypes.NewModuleAddress("distribution")))
+	s.mintTo[1], s.mintTo[2] = new(big.Int), new(big.Int)
+	if dev, err := mkeeper.GetDevGrantsAccount(); err == nil {
+		s.mintTo[1] = bal(dev)
+	}
+	if st, err := sdk.AccAddressFromBech32(mp.StorageStipendAddress); err == nil {
+		s.mintTo[2] = bal(st)
+	}
 	return s
 }
 
@@ -171,10 +185,33 @@ func (f *chainFam) lgProject(s *lgSnap) M {
 			"eq": big.NewInt(spi.SpaceUsed).Cmp(fp) == 0})
 	}
 	sortRecs(plans)
-	out := M{"bal": bal, "bids": bids, "coll": num(s.coll), "supply": sup, "auth": auth, "plans": plans}
+	// how the emission of this step (supply growth, if any) was split, against floor(emission * percentage / 100) computed
+	// with big integers (emissions may be anywhere in the int64 range): residual per recipient, and what the mint module kept
+	split := M{"rs": int64(0), "rd": int64(0), "rp": int64(0), "rem": int64(0)}
+	if f.lgPrev != nil {
+		e := new(big.Int).Sub(s.supply["ujkl"], f.lgPrev.supply["ujkl"])
+		small := func(x *big.Int) int64 {
+			if !x.IsInt64() || x.Int64() > 1_000_000_000 || x.Int64() < -1_000_000_000 {
+				if x.Sign() < 0 {
+					return -1_000_000_000
+				}
+				return 1_000_000_000
+			}
+			return x.Int64()
+		}
+		for i, k := range []string{"rs", "rd", "rp"} {
+			want := new(big.Int).Mul(e, big.NewInt(f.lgPrev.ratios[i]))
+			want.Quo(want, big.NewInt(100))
+			got := new(big.Int).Sub(s.mintTo[i], f.lgPrev.mintTo[i])
+			split[k] = small(got.Sub(got, want))
+		}
+		split["rem"] = small(new(big.Int).Sub(s.bal["mint"]["ujkl"], f.lgPrev.bal["mint"]["ujkl"]))
+	}
+	f.lgPrev = s
+	out := M{"bal": bal, "bids": bids, "coll": num(s.coll), "supply": sup, "auth": auth, "plans": plans, "split": split}
 	if !fits || f.lgBig {
 		f.lgBig = true
-		return M{"big": true}
+		return M{"big": true, "split": split}
 	}
 	out["big"] = false
 	return out
